@@ -12,8 +12,21 @@ Clause decided: "nothing the source states is lost on the way through the IR".
      grammar class K carries operands (non-empty ``use_names``) must read its
      parse-tree argument; a handler building the IR node from ``**kwargs`` alone
      drops the operands (``CYCLE outer`` -> ``CYCLE``).
-Not decided: that a consumed operand is rendered correctly (C06 covers
-expressions), run-time equality.
+ R4  parentheses survive the round trip: the frontend materialises a source
+     parenthesis as a ``Parenthesised*`` node only for the operator classes
+     tested in ``FParser2IR.visit_Parenthesis``; for every other operator class
+     (logical operators, comparisons, negation of such) the grouping lives in the
+     tree shape alone, so the Fortran printer must re-create the parentheses:
+     C06's slot rule is evaluated for ``FCodeMapper`` on exactly those child
+     classes (``.not. (p .and. q)`` must not come back as ``.not.p .and. q``).
+ R5  default-branch extraction keeps selectors and bodies paired: the block that
+     removes the ``CASE DEFAULT`` / ``CLASS DEFAULT`` entry from the parallel
+     sequences ``values`` / ``bodies`` is executed abstractly for every position
+     p of the default among n = 1..4 alternatives; afterwards ``else_body`` must
+     be the p-th body and the remaining (value, body) pairs must be the original
+     ones in order (the default need not be the last alternative).
+Not decided: that a consumed operand is rendered correctly beyond R4 (C06 covers
+expression printing in general), run-time equality.
 """
 import ast
 
@@ -193,8 +206,90 @@ def run(ctx):
                           f'(`{ast.unparse(f.node.body[-1])}`): the operands are dropped from the IR', facts={'operands': ops})
     ctx.floor('R3', 'frontend handlers', nh, 230)
 
+    # ---- R4
+    ctx.rule('R4', 'operator classes the frontend does not wrap in Parenthesised* nodes (read off visit_Parenthesis) are parenthesised '
+                   'by FCodeMapper wherever Fortran needs it (C06 slot rule restricted to those child classes)')
+    from sa.printers import judge_printer
+    vp = m.get_function('loki/frontend/fparser.py', 'FParser2IR.visit_Parenthesis')
+    wrapped = set()
+    for n in ast.walk(vp.node):
+        if isinstance(n, ast.Call) and X.call_name_of(n) == 'isinstance' and len(n.args) == 2:
+            wrapped |= {(X.dotted_attr(c) or ast.unparse(c)).split('.')[-1] for c in
+                        (n.args[1].elts if isinstance(n.args[1], ast.Tuple) else [n.args[1]])}
+    ctx.floor('R4', 'operator classes wrapped by visit_Parenthesis', len(wrapped), 4)
+    ctx.extra['frontend_wraps'] = sorted(wrapped)
+    KIND_CLASS = {'Sum': 'Sum', 'Product': 'Product', 'Quotient': 'Quotient', 'Power': 'Power', 'Neg': 'Product',
+                  'And': 'LogicalAnd', 'Or': 'LogicalOr', 'Not': 'LogicalNot', 'Comparison': 'Comparison'}
+    _, n4 = judge_printer(ctx, 'R4', 'loki/backend/fgen.py', 'FCodeMapper', 'fortran',
+                          child_filter=lambda k: KIND_CLASS.get(k, k) not in wrapped)
+    ctx.floor('R4', 'operator pairs judged (unwrapped child classes)', n4, 12)
+    _r5(ctx)
+
+
+def _r5(ctx):
+    from sa.miniev import run_block, Unknown
+    m = ctx.model
+    ctx.rule('R5', 'FParser2IR handlers of SELECT CASE / SELECT TYPE: abstract execution of the `if <default> in values:` block for '
+                   'n = 1..4 alternatives and every default position keeps (value, body) pairs aligned and else_body = body of the default')
+    F = m.get_class('loki/frontend/fparser.py', 'FParser2IR')
+    n5 = 0
+    for hn in ('visit_Case_Construct', 'visit_Select_Type_Construct'):
+        f = F.function(hn)
+        if f is None:
+            raise AnalysisError(f'FParser2IR.{hn} vanished')
+        blocks = [st for st in ast.walk(f.node) if isinstance(st, ast.If) and isinstance(st.test, ast.Compare)
+                  and isinstance(st.test.ops[0], ast.In) and ast.unparse(st.test.comparators[0]) == 'values']
+        if len(blocks) != 1:
+            raise AnalysisError(f'{hn}: default-extraction block (`if <default> in values:`) not found')
+        blk = blocks[0]
+        try:
+            marker = ast.literal_eval(blk.test.left)
+        except ValueError:
+            raise AnalysisError(f'{hn}: default marker `{ast.unparse(blk.test.left)}` is not a literal')
+        n5 += 1
+        bad = None
+        for n in range(1, 5):
+            for p in list(range(n)) + [None]:
+                values = tuple(marker if i == p else f'v{i}' for i in range(n))
+                bodies = tuple(f'b{i}' for i in range(n))
+                env = {'values': values, 'bodies': bodies}
+                try:
+                    run_block([blk], env)
+                except Unknown as u:
+                    raise AnalysisError(f'{hn}: default-extraction block uses `{u}`, outside the evaluated fragment')
+                except (ValueError, IndexError) as exc:
+                    bad = bad or (n, p, f'raises {exc!r}')
+                    continue
+                want_pairs = tuple((v, b) for i, (v, b) in enumerate(zip(values, bodies)) if i != p)
+                got_pairs = tuple(zip(tuple(env['values']), tuple(env['bodies'])))
+                want_else = bodies[p] if p is not None else ()
+                if (got_pairs != want_pairs or tuple(env['else_body']) != tuple(want_else) if p is None else
+                        got_pairs != want_pairs or env['else_body'] != want_else) or len(env['values']) != len(env['bodies']):
+                    bad = bad or (n, p, f"values={env['values']} bodies={env['bodies']} else_body={env['else_body']!r}")
+        inst = f'FParser2IR.{hn}:default-extraction'
+        if bad:
+            n_, p_, got = bad
+            ctx.violation('R5', inst, f'{f.module.relpath}:{blk.lineno}',
+                          f'with {n_} alternatives and the default at position {p_} the block yields {got}: selectors are paired with the '
+                          f'bodies of other alternatives (the default need not come last in SELECT CASE / SELECT TYPE)',
+                          facts={'alternatives': n_, 'default_position': p_, 'result': got})
+        else:
+            ctx.judge('R5', inst, facts={'marker': repr(marker), 'cases_evaluated': 14})
+    ctx.floor('R5', 'default-extraction blocks', n5, 2)
+
 
 MUTANTS = [
+    Mutant('case-default-assumed-last', 'loki/frontend/fparser.py',
+           "            default_index = values.index('DEFAULT')\n            else_body = bodies[default_index]\n            values = values[:default_index] + values[default_index+1:]\n            bodies = bodies[:default_index] + bodies[default_index+1:]\n",
+           "            values = tuple(v for v in values if v != 'DEFAULT')\n            *bodies, else_body = bodies\n", expect=('R5', 'visit_Case_Construct')),
+    Mutant('type-default-off-by-one', 'loki/frontend/fparser.py',
+           "            default_index = values.index((None, None))\n            else_body = bodies[default_index]\n            values = values[:default_index] + values[default_index+1:]\n            bodies = bodies[:default_index] + bodies[default_index+1:]\n",
+           "            default_index = values.index((None, None))\n            else_body = bodies[default_index]\n            values = values[:default_index] + values[default_index+1:]\n            bodies = bodies[:default_index+1] + bodies[default_index+2:]\n", expect=('R5', 'visit_Select_Type_Construct')),
+    Mutant('neutral-default-filter-both', 'loki/frontend/fparser.py',
+           "            values = values[:default_index] + values[default_index+1:]\n            bodies = bodies[:default_index] + bodies[default_index+1:]\n        else:\n            else_body = ()\n\n        # Everything past the END ASSOCIATE (should be empty)\n        assert not o.children[end_select_stmt_index+1:]\n\n        case_construct",
+           "            bodies = tuple(b for i, b in enumerate(bodies) if i != default_index)\n            values = tuple(v for i, v in enumerate(values) if i != default_index)\n        else:\n            else_body = ()\n\n        # Everything past the END ASSOCIATE (should be empty)\n        assert not o.children[end_select_stmt_index+1:]\n\n        case_construct", expect=None),
+    Mutant('not-operand-prec-lowered', 'loki/backend/fgen.py', '".not." + self.rec(expr.child, PREC_UNARY, *args, **kwargs)',
+           '".not." + self.rec(expr.child, PREC_LOGICAL_AND, *args, **kwargs)', expect=('R4', 'Not.child<-And')),
     Mutant('backend-handler-removed', BE,
            "    def visit_Nullify(self, o, **kwargs):", "    def _unused_visit_Nullify(self, o, **kwargs):", expect=('R1', 'Nullify'), quick=True),
     Mutant('frontend-drops-goto-label', FE, "        label = o.items[0].tostr()\n        return ir.GotoStmt(text=label, **kwargs)",
